@@ -286,8 +286,15 @@ func runConstIndex(c *core.Ctx) []core.Obligation {
 		if bufParam(fn) == nil && !strings.Contains(name, "Tokenizer") && !strings.Contains(name, "Decoder") {
 			continue // only code that consumes input text
 		}
+		// the scanners are also handed empty text (the unquoted text of an empty key, the rest of a
+		// truncated document): there the parameter itself is held to the same standard
+		scanner := strings.HasPrefix(name, "json.(decoder).parse")
+		bp := bufParam(fn)
 		isResliced := func(v ssa.Value) bool {
 			for _, o := range origins(v) {
+				if scanner && bp != nil && o == ssa.Value(bp) {
+					return true
+				}
 				switch x := o.(type) {
 				case *ssa.Slice:
 					if x.Low != nil {
